@@ -315,7 +315,7 @@ impl Prop for C09 {
         if evaluating_calls >= 5 {
             ctx.nontrivial(fnv(format!("{:?}{:?}{:?}", c.prog.lines.iter().map(print_line).collect::<Vec<_>>(), c.raw_lines, c.breaks).as_bytes()));
         }
-        let key = "max_token_reads_per_line_token_x100";
+        let key = "max.token_reads_per_line_token_x100";
         let cur = ctx.stats.counters.get(key).copied().unwrap_or(0);
         if max_ratio_x100 > cur {
             ctx.stats.counters.insert(key.to_string(), max_ratio_x100);
